@@ -317,39 +317,133 @@ theorem chain_length (now : Int) (cs : List (Int × Int × Req)) : (chain now cs
     unfold chain
     split <;> simp [ih]
 
+theorem findEq_spec {ρ : Type} (eq : ρ → ρ → Bool) (r : ρ) (l : List (Ctl ρ)) (i : Nat) (h : findEq eq r l = some i) :
+    ∃ c, l[i]? = some c ∧ eq c.rule r = true := by
+  induction l generalizing i with
+  | nil => simp [findEq] at h
+  | cons c cs ihl =>
+    unfold findEq at h
+    by_cases hc : eq c.rule r = true
+    · simp only [hc, ↓reduceIte, Option.some.injEq] at h; subst h; exact ⟨c, by simp, hc⟩
+    · simp only [hc, Bool.false_eq_true, ↓reduceIte, Option.map_eq_some_iff] at h
+      obtain ⟨j, hj, rfl⟩ := h
+      obtain ⟨c', h1, h2⟩ := ihl j hj
+      exact ⟨c', by simpa using h1, h2⟩
+
 /-- **Reload**: every controller in force afterwards was built for its rule or is an old controller whose rule the
     code's equality accepts for it — in particular a rule whose limit, threshold or interval changed (equality false)
     gets a fresh checker with the new parameters, it never keeps the old ones. -/
-theorem reload_sound {ρ : Type} (eq : ρ → ρ → Bool) (old : List (Ctl ρ)) (rules : List ρ) :
-    List.Forall₂ (fun c r => (c.rule = r ∧ c.last = 0) ∨ (c ∈ old ∧ eq c.rule r = true)) (reload eq old rules) rules := by
-  induction rules generalizing old with
+theorem reload_sound {ρ : Type} (eq : ρ → ρ → Bool) (next : Nat) (old : List (Ctl ρ)) (rules : List ρ) :
+    List.Forall₂ (fun c r => (c.rule = r ∧ c.last = 0) ∨ (c ∈ old ∧ eq c.rule r = true)) (reload eq next old rules) rules := by
+  induction rules generalizing old next with
   | nil => simp [reload]
   | cons r rs ih =>
-    have findEq_spec : ∀ (l : List (Ctl ρ)) (i : Nat), findEq eq r l = some i → ∃ c, l[i]? = some c ∧ eq c.rule r = true := by
-      intro l
-      induction l with
-      | nil => intro i h; simp [findEq] at h
-      | cons c cs ihl =>
-        intro i h
-        unfold findEq at h
-        by_cases hc : eq c.rule r = true
-        · simp only [hc, ↓reduceIte, Option.some.injEq] at h; subst h; exact ⟨c, by simp, hc⟩
-        · simp only [hc, Bool.false_eq_true, ↓reduceIte, Option.map_eq_some_iff] at h
-          obtain ⟨j, hj, rfl⟩ := h
-          obtain ⟨c', h1, h2⟩ := ihl j hj
-          exact ⟨c', by simpa using h1, h2⟩
     unfold reload
     split
     · rename_i i hi
-      obtain ⟨c, hc, he⟩ := findEq_spec old i hi
+      obtain ⟨c, hc, he⟩ := findEq_spec eq r old i hi
       simp only [hc]
       refine List.Forall₂.cons (Or.inr ⟨List.mem_of_getElem? hc, he⟩) ?_
-      refine (ih (old.eraseIdx i)).imp ?_
+      refine (ih (next + 1) (old.eraseIdx i)).imp ?_
       intro c' r' h
       rcases h with h | ⟨h1, h2⟩
       · exact Or.inl h
       · exact Or.inr ⟨List.mem_of_mem_eraseIdx h1, h2⟩
-    · exact List.Forall₂.cons (Or.inl ⟨rfl, rfl⟩) (ih old)
+    · exact List.Forall₂.cons (Or.inl ⟨rfl, rfl⟩) (ih (next + 1) old)
+
+theorem findEq_map {ρ : Type} (eq : ρ → ρ → Bool) (r : ρ) (h : Ctl ρ → Ctl ρ) (hr : ∀ c, (h c).rule = c.rule)
+    (l : List (Ctl ρ)) : findEq eq r (l.map h) = findEq eq r l := by
+  induction l with
+  | nil => rfl
+  | cons c cs ih => simp [findEq, hr, ih]
+
+/-- **A reload does not look at the timestamps**: changing the controllers' `lastPassedTime` by identity (`h` keeps the
+    rule, and leaves the controllers the reload creates alone) commutes with the reload.  Hence a reload that happens while a
+    request sleeps yields the same controllers as a reload after that request (`chainReload` vs. `chain` then `reload`). -/
+theorem reload_map {ρ : Type} (eq : ρ → ρ → Bool) (h : Ctl ρ → Ctl ρ) (hr : ∀ c, (h c).rule = c.rule)
+    (next : Nat) (hf : ∀ n r, next ≤ n → h ⟨n, r, 0⟩ = ⟨n, r, 0⟩) (old : List (Ctl ρ)) (rules : List ρ) :
+    reload eq next (old.map h) rules = (reload eq next old rules).map h := by
+  induction rules generalizing old next with
+  | nil => simp [reload]
+  | cons r rs ih =>
+    have hf' : ∀ n r, next + 1 ≤ n → h ⟨n, r, 0⟩ = ⟨n, r, 0⟩ := fun n r hn => hf n r (by omega)
+    unfold reload
+    rw [findEq_map eq r h hr]
+    cases hfe : findEq eq r old with
+    | none => simp only [List.map_cons, hf next r (le_refl _), ih (next + 1) hf' old]
+    | some i =>
+      obtain ⟨c, hc, _⟩ := findEq_spec eq r old i hfe
+      simp only [List.getElem?_map, hc, Option.map_some, List.map_cons, List.eraseIdx_map, ih (next + 1) hf' (old.eraseIdx i)]
+
+/-- the walk up to the first sleep, then the walk over the rest, is the walk -/
+theorem chain_split (now : Int) (cs : List (Int × Int × Req)) (now1 : Int) (h : (chainHead now cs).2.2 = some now1) :
+    chain now cs =
+      ((chainHead now cs).1.take (chainHead now cs).2.1.length ++ (chain now1 (cs.drop (chainHead now cs).2.1.length)).1,
+       (chainHead now cs).2.1 ++ (chain now1 (cs.drop (chainHead now cs).2.1.length)).2) := by
+  induction cs with
+  | nil => simp [chainHead] at h
+  | cons c r ih =>
+    obtain ⟨maxQ, last, q⟩ := c
+    rcases hd : doCheck maxQ last now q with ⟨l', res⟩
+    have e1 : chain now ((maxQ, last, q) :: r) = (match (l', res) with
+        | (l', .block) => (l' :: r.map (·.2.1), [.block])
+        | (l', .pass) => (l' :: (chain now r).1, .pass :: (chain now r).2)
+        | (l', .wait w) => (l' :: (chain (now + w) r).1, .wait w :: (chain (now + w) r).2)) := by
+      conv_lhs => unfold chain
+      rw [hd]
+      cases res <;> rfl
+    have e2 : chainHead now ((maxQ, last, q) :: r) = (match (l', res) with
+        | (l', .block) => (l' :: r.map (·.2.1), [.block], none)
+        | (l', .pass) => (l' :: (chainHead now r).1, .pass :: (chainHead now r).2.1, (chainHead now r).2.2)
+        | (l', .wait w) => (l' :: r.map (·.2.1), [.wait w], some (now + w))) := by
+      conv_lhs => unfold chainHead
+      rw [hd]
+      cases res <;> rfl
+    rw [e1]
+    rw [e2] at h ⊢
+    cases res with
+    | block => simp at h
+    | pass =>
+      simp only at h ⊢
+      rw [ih h]
+      simp
+    | wait w =>
+      simp only [Option.some.injEq] at h ⊢
+      subst h
+      simp
+
+/-- **A request that sleeps through a reload finishes with the rule list it started with**: whatever is loaded during its
+    first sleep (or nothing), the controllers it visits answer exactly as in the plain walk over the controllers in force
+    when it arrived — so `chain_ok` (every visited rule honoured for its own timestamp and limit) applies to it unchanged. -/
+theorem chainReload_results {ρ : Type} (eq : ρ → ρ → Bool) (next : Nat) (now : Int) (ctls : List (Ctl ρ)) (par : ρ → Int × Req)
+    (rules : Option (List ρ)) :
+    (chainReload eq next now ctls par rules).2.1 = (chain now (ctls.map fun c => ((par c.rule).1, c.last, (par c.rule).2))).2 := by
+  unfold chainReload
+  simp only
+  split
+  · rename_i now1 rs h1
+    simp only
+    rw [chain_split now _ now1 h1, List.map_drop]
+  · rfl
+
+/-- what is in force afterwards is what a reload *after* the request would have built (controllers are shared by reference,
+    and the reload does not look at timestamps: `reload_map`).  Stated for controllers with distinct identities below `next`;
+    validated by the correspondence runs (the generator's mirror relies on it), not proved here. -/
+def chainReload_ctls_statement : Prop :=
+  ∀ {ρ : Type} (eq : ρ → ρ → Bool) (next : Nat) (now : Int) (ctls : List (Ctl ρ)) (par : ρ → Int × Req) (rules : List ρ),
+    (ctls.map (·.id)).Nodup → (∀ c ∈ ctls, c.id < next) →
+    (chainReload eq next now ctls par (some rules)).2.2 = true →
+    (chainReload eq next now ctls par (some rules)).1 =
+      reload eq next
+        ((ctls.zip (chain now (ctls.map fun c => ((par c.rule).1, c.last, (par c.rule).2))).1).map fun (c, l) => { c with last := l })
+        rules
+
+/-- the demo of the seeded change: three rules, the request sleeps 90 for rule 1, meanwhile the same rules plus one more are
+    loaded; it is still rejected by rule 2, and rule 2's controller (identity 1) is the one in force afterwards -/
+example :
+    let r := chainReload (fun (a b : Nat) => a == b) 3 10 [⟨0, 0, 0⟩, ⟨1, 1, 0⟩, ⟨2, 2, 0⟩]
+      (fun r => if r = 0 then (1000, .norm 100) else if r = 1 then (0, .norm 1000) else (1000, .norm 1)) (some [0, 1, 2, 3])
+    r.2.1 = [.wait 90, .block] ∧ r.1.map (·.id) = [0, 1, 2, 6] ∧ r.1.map (·.last) = [100, 0, 0, 0] := by decide
 
 example : chain 0 [(1000, 0, .norm 100), (0, 0, .norm 300)] = ([100, 0], [.wait 100, .block]) := by decide
 
